@@ -174,13 +174,16 @@ ObsOf(w0) == [rep |-> Reported(w0), qok |-> TRUE,
               withdrawable |-> [u \in Accts |-> QueryWithdrawable(w0, u)],                       \* hub WithdrawableUnbonded
               accrued |-> [a \in Accts |-> IF DecLe(w0.rew.holders[a].idx, w0.rew.gidx)          \* reward AccruedRewards
                                            THEN DecFloor(Accrued(w0.rew.holders[a], w0.rew.gidx)) ELSE 0]]
-InitEv == [tx |-> [k |-> "init"], ok |-> TRUE, err |-> "", fx |-> <<>>]
+\* `same`: the outcome was the same under every mode of the swap / oracle stubs.  In the model the flag is constant (the
+\* specification-level statement is C09_ExitsIgnoreStubs); in implementation traces the harness re-executes exit transactions
+\* on copies of the chain under every stub mode and logs whether outcome, effects and resulting state agree.
+InitEv == [tx |-> [k |-> "init"], ok |-> TRUE, err |-> "", fx |-> <<>>, same |-> TRUE]
 Init == w = InitWorld /\ g = InitGhost /\ ev = InitEv /\ obs = ObsOf(InitWorld)
 
 Step(tx) ==
   LET r == Apply(tx, w) IN
   /\ w'  = r.w
-  /\ ev' = [tx |-> tx, ok |-> r.ok, err |-> r.err, fx |-> r.fx]
+  /\ ev' = [tx |-> tx, ok |-> r.ok, err |-> r.err, fx |-> r.fx, same |-> TRUE]
   /\ g'  = GhostNext(g, w, tx, r.ok, r.w, r.fx)
   /\ obs' = ObsOf(r.w)
 StepOk(tx) == Apply(tx, w).ok /\ Step(tx)          \* generation of behaviours: successful events only
